@@ -45,8 +45,8 @@ def ytkF1 : Pat := lits [.T, .C, .T, .C] ++ nRun 5
 def ytkF2 : Pat := nRun 5 ++ lits [.G, .A]
 def ytkG3 : Pat := lits [.G, .A, .C, .C]
 def ytkSuf : Pat := nRun 1 ++ lits [.G, .A, .G, .A, .C, .G]
-/-- `YTKProduct.structure()` in closed form -/
-def ytkProductPat : Pat := threeGroup ytkPre ytkG1 (ytkF1 ++ [.star .N false] ++ ytkF2) ytkG3 ytkSuf
+/-- the closed form of `Model/Structure.lean`, as a three-group structure -/
+theorem ytkProductPat_eq : ytkProductPat = threeGroup ytkPre ytkG1 (ytkF1 ++ [.star .N false] ++ ytkF2) ytkG3 ytkSuf := rfl
 
 
 theorem slice_length (t : Word) (a b : Nat) (hab : a ≤ b) (hb : b ≤ t.length) : (slice t a b).length = b - a := by
@@ -83,7 +83,7 @@ theorem ytk_product_layout {text : Word} {ms : List Nat} {e : Nat} (h : Run ytkP
       n12.length = 2 ∧ S.length = 6 ∧ matchesAt [.G, .G, .T, .C, .T, .C] S ∧
       x.length = 1 ∧ o5.length = 4 ∧ o3.length = 4 ∧ y.length = 1 ∧ GA.length = 2 ∧ matchesAt [.G, .A] GA ∧
       matchesAt [.G, .A, .C, .C] (slice text b2 (b2 + 4)) ∧ C01.Plain (x ++ o5 ++ t ++ o3 ++ y) := by
-  unfold ytkProductPat at h
+  rw [ytkProductPat_eq] at h
   have mpre : markless ytkPre := markless_of_all (by decide)
   have mg2 : markless (ytkF1 ++ [.star .N false] ++ ytkF2) := markless_of_all (by decide)
   have msuf : markless ytkSuf := markless_of_all (by decide)
@@ -166,9 +166,6 @@ theorem ytk_product_layout {text : Word} {ms : List Nat} {e : Nat} (h : Run ytkP
     rw [this]
     exact (C01.Plain_append _ _).mpr ⟨(C01.Plain_append _ _).mpr ⟨p1, p3⟩, p2⟩
 
-
-/-- BsaI, the cutter of the YTK next level (kernel-checked against the regenerated table in `Props/C11`) -/
-def bsaI : Geom := { site := [.G, .G, .T, .C, .T, .C], off := 1, k := 4 }
 
 theorem rotr_append_length (X Y : Word) : rotr (X ++ Y) Y.length = Y ++ X := by
   unfold rotr
